@@ -170,6 +170,9 @@ def wide(atoms=('a', 'b', 'c')):
     out += ['(lambda: %s)' % a, '(lambda y: y + %s)' % a, '(lambda y=%s: y)' % a, '(lambda y=%s: y + %s)' % (a, b), '(lambda y=%s, z=%s: y + z)' % (a, b), '(lambda y, z=%s: y + z + %s)' % (a, b),
             '(lambda *y: %s)' % a, '(lambda **y: %s)' % a, '(lambda y, *, k=%s: y + %s)' % (a, b), '(lambda y, *, k: y + k)', '(lambda y, /, z: y + z + %s)' % a,
             'f(lambda y=%s: y + %s)' % (c, a), 'f(lambda y: y.p == %s)' % a, 'f(y for y in %s)' % a, 'f(y + %s for y in %s if %s)' % (b, a, c), 'f(y for y in %s if y.p == %s)' % (a, b),
+            # closures over the loop variable x of the enclosing generator / lambda (MAKE_FUNCTION with a closure tuple)
+            '(lambda y: y + x)', '(lambda y=%s: y + x)' % a, '(lambda y=x: y + %s)' % a, '(lambda y=%s, z=%s: y + z + x.p)' % (a, b), 'f(lambda y=%s: y.p == x.p)' % a,
+            '(lambda *y: x)', 'f(y for y in %s if y.p == x.p)' % a, 'f(y + x for y in %s)' % a, '[y for y in %s if y == x]' % a, 'f(lambda: (x, %s))' % a,
             'f((y, z) for y in %s for z in y.q)' % a, '[y for y in %s]' % a, '{y for y in %s}' % a, '{y: %s for y in %s}' % (a, b)]
     out += ['%s if %s else %s' % (a, b, c), '%s if %s else (%s if %s else %s)' % (a, b, c, a, b), '(%s if %s else %s) if %s else %s' % (a, b, c, a, b), '1 if %s else 2' % a,
             '%s if not %s else %s' % (a, b, c), '(%s if %s else %s).p' % (a, b, c), 'f(%s if %s else %s)' % (a, b, c), '(%s if %s else %s)[%s]' % (a, b, c, a),
